@@ -18,6 +18,46 @@ mod polling;
 mod iso;
 #[path = "../../common/misc.rs"]
 mod misc;
+#[path = "../../common/conform.rs"]
+mod conform;
+#[path = "../../common/grammar.rs"]
+mod grammar;
+#[path = "../../common/rt.rs"]
+mod rt;
+
+/// Configuration-specific part of C18: the scanner products, whose every feed/poll/reset runs in
+/// an allocation-counting region, explored to their fixpoints with all oracles off.
+pub fn c18_extra(chk: &Check, _tier: Tier, heavy: &std::sync::atomic::AtomicU64) {
+    use std::sync::atomic::Ordering;
+    use xs::{engine, Limits};
+    let lim = Limits { restoration_check: false, ..Default::default() };
+    let v3 = [0u8, 1, 127];
+    scan::API_ALLOCS.store(0, Ordering::Relaxed);
+    let sys = cc14::c08_system("C18", 2, scan::Report::default(), &v3);
+    let out = xs::explore(&sys, &lim);
+    engine::record(chk, &sys, &out, None);
+    heavy.fetch_add(out.transitions + out.probes, Ordering::Relaxed);
+    let sys = nrpn::c11_system("C18", 2, scan::Report::default(), &v3, true);
+    let out = xs::explore(&sys, &lim);
+    engine::record(chk, &sys, &out, None);
+    heavy.fetch_add(out.transitions + out.probes, Ordering::Relaxed);
+    for t in [0u64, 2] {
+        let sys = polling::PollSys::new("C18", 2, t, 1, &v3, false, polling::PReport::default());
+        let out = xs::explore(&sys, &lim);
+        engine::record(chk, &sys, &out, None);
+        heavy.fetch_add(out.transitions + out.probes, Ordering::Relaxed);
+    }
+    let mut sys = iso::IsoSys::<helgoboss_midi::PollingParameterNumberMessageScanner>::new(1, 9, 2, false);
+    sys.pid = "C18";
+    let out = xs::explore(&sys, &lim);
+    engine::record(chk, &sys, &out, None);
+    heavy.fetch_add(out.transitions, Ordering::Relaxed);
+    let a = scan::API_ALLOCS.load(Ordering::Relaxed);
+    chk.set("allocations_inside_scanner_calls_during_fixpoints", serde_json::json!(a));
+    if a > 0 {
+        chk.violate(xs::Violation::new("no-heap-allocation", format!("C18/allocates/scanner-fixpoints/{}", chk.part), format!("{} heap allocation(s) inside feed/poll/reset calls made during the scanner fixpoints", a)));
+    }
+}
 
 use xs::{Check, Tier};
 
@@ -103,6 +143,11 @@ fn main() {
             nrpn::run_c11(&chk, tier);
             chk.finish()
         }
+        "C12" => {
+            let chk = Check::new("C12", PART, tier, "model_checking");
+            grammar::run_c12(&chk, tier);
+            chk.finish()
+        }
         "C13" => {
             let chk = Check::new("C13", PART, tier, "model_checking");
             polling::run_c13(&chk, tier);
@@ -126,6 +171,12 @@ fn main() {
         "C17" => {
             let chk = Check::new("C17", PART, tier, "model_checking");
             misc::run_c17(&chk, tier);
+            chk.finish()
+        }
+        "C18" => {
+            let part = if cfg!(debug_assertions) { "std-debug" } else { PART };
+            let chk = Check::new("C18", part, tier, "exploration");
+            rt::run_c18(&chk, tier);
             chk.finish()
         }
         _ => {
